@@ -6,7 +6,8 @@
 (* Values: 0 = None, 1 = "", 2.. = non-empty strings.                      *)
 (***************************************************************************)
 EXTENDS Naturals, Sequences, TLC, Json
-CONSTANTS Vals, Depth      \* Vals e.g. 0..3
+CONSTANTS Vals, Depth,     \* Vals e.g. 0..3
+          WithAttached    \* also generate the refused raw-level assignments of attached nodes
 VARIABLES payee, narration, steps, hist
 vars == <<payee, narration, steps, hist>>
 
@@ -25,7 +26,13 @@ SetNarration(v) == /\ steps < Depth /\ steps' = steps + 1
                    /\ UNCHANGED payee
                    /\ hist' = Append(hist, [op |-> "narration", v |-> v, payee |-> payee,
                                             narration |-> IF v = 0 /\ payee # 0 THEN 1 ELSE v])
-Next == \E v \in Vals : SetPayee(v) \/ SetNarration(v)
+\* C19: a string node that already lives in a document, handed to the raw-level setters, is refused - and the
+\* implied empty narration must not have been written by then
+Attached(which) == /\ steps < Depth /\ steps' = steps + 1
+                   /\ UNCHANGED <<payee, narration>>
+                   /\ hist' = Append(hist, [op |-> which, v |-> 0, payee |-> payee, narration |-> narration, exc |-> "ValueError"])
+Next == \/ \E v \in Vals : SetPayee(v) \/ SetNarration(v)
+        \/ (WithAttached /\ \E which \in {"raw_payee", "raw_narration"} : Attached(which))
 
 PayeeImpliesNarration == payee # 0 => narration # 0
 Emit == (steps = Depth) => PrintT(<<"TRACE", ToJson(hist)>>)
